@@ -195,7 +195,8 @@ Example C10_files :
   run_files exP ex_seeds All_ 1000000 (rev ex_rrows) (rev ex_qrows) [] [] = run_files exP ex_seeds All_ 1000000 ex_rrows ex_qrows [] [] /\
   (* -qId 12 13 99 *)
   rmap out_recs (run_files exP ex_seeds Best 1000000 ex_rrows ex_qrows [] [12; 13; 99]) =
-    Ok ([(12, 1, false, (470000, 980000, 720000, 1230000), 140000, false, [(10, 7); (11, 8); (12, 9); (13, 10); (14, 11); (15, 12); (16, 13)]);
+    (* query 12: its second-pass row beats its first-pass row and is reported as it is (AlignedRest True; before repair F12 it was joined with itself) *)
+    Ok ([(12, 1, false, (470000, 980000, 720000, 1230000), 140000, true, [(10, 7); (11, 8); (12, 9); (13, 10); (14, 11); (15, 12); (16, 13)]);
          (13, 1, true, (440000, 0, 600000, 1040000), 120000, false, [(9, 6); (10, 5); (11, 4); (12, 3); (13, 2); (14, 1)])], None, None) /\
   (* -rId 2: the only reference left has no seed on it that aligns *)
   rmap out_recs (run_files exP ex_seeds Best 1000000 ex_rrows ex_qrows [2] []) <> rmap out_recs (run_files exP ex_seeds Best 1000000 ex_rrows ex_qrows [] []).
